@@ -89,6 +89,8 @@ def arm(run, plan, fault):
 
     if mode == "raise":
         run.hooks[(kind, ident)] = lambda r, kw: fire()
+    elif mode == "await":
+        run.hooks[("await-" + kind, ident)] = lambda r, kw: fire()
     elif mode == "bool":
         def wrap(r, val):
             if due():
@@ -169,6 +171,11 @@ def injection_points(events, program, has_bomb, is_async_target):
     """All single-fault plans for the events of the un-faulted op (mode, kind, ident, n)."""
     pts = []
     counts = {}
+    aw_c, aw_s = set(), set()  # conditions / captures that hand out a non-coroutine awaitable (on async callables)
+    for f in list(program.get("funcs", [])) + [m for c in program.get("classes", []) for m in c.get("members", [])]:
+        for d in f.get("decos", []):
+            if d.get("flavor") == "awaitable" and f.get("async"):
+                (aw_c if d["t"] in ("require", "ensure") else aw_s).add(d.get("cid", d.get("sid")))
     for e in events:
         k, ident = e[0], e[1]
         if k in ("pre", "post", "inv"):
@@ -176,10 +183,14 @@ def injection_points(events, program, has_bomb, is_async_target):
             counts[("cond", ident)] = n + 1
             pts.append(("raise", "cond", ident, n, k))
             pts.append(("bool", "cond", ident, n, k))
+            if ident in aw_c and k != "inv":
+                pts.append(("await", "cond", ident, n, k))  # the awaited operation itself fails
         elif k in ("cap", "err", "body"):
             n = counts.get((k, ident), 0)
             counts[(k, ident)] = n + 1
             pts.append(("raise", k, ident, n, k))
+            if k == "cap" and ident in aw_s:
+                pts.append(("await", "cap", ident, n, k))
     if has_bomb:
         pts.append(("repr", "repr", "arg", 0, "repr"))
     return pts
@@ -293,6 +304,12 @@ def one(ctx, case, loaded, setup, op0, truth, probes, plans, fresh, base_out0, r
         out = outs[i0 + j]
         exc = excs.get(i0 + j)
         if not_fired(run, j):
+            if mode == "await" and len(plans) == 1:
+                # the callable WAS called in the un-faulted run and handed out its awaitable: it has to be awaited
+                ctx.fail("lost|await-never-awaited|%s|%s" % (role, sig), c, D.describe(
+                    c, _R(loaded), "%s\nthe awaitable returned by %s #%s was never awaited: whatever it produces (a falsy "
+                                   "value, an exception) is dropped; outcome %r" % (desc, kind, ident, out[:2])))
+                return
             continue  # the plan's point was not reached in this op (earlier fault changed the path)
         tag = "%s|%s|%s|%s" % (mode, role, "exc-kind" if fk in EXC_KINDS else "base-kind", sig)
         if mode == "gate-close":
@@ -364,7 +381,9 @@ def st_case(draw):
                 f["body"]["raise"] = "KeyError"
             for d in f["decos"]:
                 if d["t"] in ("require", "ensure", "snapshot") and not d.get("made") and draw(st.integers(0, 2)) == 0:
-                    d["flavor"] = "gated"
+                    # gated: a coroutine function suspended at a gate; awaitable / ret_coro: a sync callable handing out
+                    # a non-coroutine awaitable / a coroutine - what they produce is judged only after it was awaited
+                    d["flavor"] = draw(st.sampled_from(["gated", "gated", "awaitable", "ret_coro"]))
                     d["lam"] = False
                     if d["t"] != "snapshot" and d["err"]["form"] in ("default", "class"):
                         d["err"] = {"form": "instance"}
